@@ -207,6 +207,7 @@ class Interp:
     def run(self, body, env, upvars=None, path=None, start=0):
         """-> list of outcomes: ('return', PathState) | ('panic', PathState, msg)"""
         out = []
+        descent = path is not None
         p0 = path if path is not None else PathState(env)
         stack = [(start, p0)]
         while stack:
@@ -310,6 +311,11 @@ class Interp:
                         else:
                             for target in dict.fromkeys([x[1] for x in t['ts']] + [t['else']]):
                                 stack.append((target, path.fork()))
+        if descent:
+            # an activation that has returned is over: calling the same helper again further down the path (with the same abstract state)
+            # is not a cycle of the path
+            for oc in out:
+                oc[1].seen = {k for k in oc[1].seen if k[0] != body.id}
         return out
 
     def _panic_message(self, body, bb):
